@@ -1475,13 +1475,57 @@ func (tb *TermBuilder) reach(ctx *Ctx, at ssa.Instruction, al *ssa.Alloc, ai *al
 		}
 	}
 	dom := nearestDominatingStore(at, cands)
+	multi := false
 	for _, s := range cands {
 		if s == dom {
 			continue
 		}
 		if reachesAvoiding(s, at, dom) {
-			return nil, false // more than one store may reach the load
+			multi = true
 		}
+	}
+	if multi {
+		// several stores may reach the load: the value is one of the stored values
+		// (a memory phi), named by the load instance with the stored values as alternatives
+		var alts []*Term
+		seen := map[*Term]bool{}
+		for _, s := range cands {
+			if !reachesAvoidingAll(s, at, cands) {
+				continue
+			}
+			val := tb.Term(ctx, s.Val)
+			for _, p := range path[len(ai.paths[s]):] {
+				if strings.HasPrefix(p, "#") {
+					n, _ := strconv.ParseInt(p[1:], 10, 64)
+					val = tb.mk("index", "", 0, val, tb.constInt(n))
+				} else {
+					val = tb.field(val, p)
+				}
+			}
+			if !seen[val] {
+				seen[val] = true
+				alts = append(alts, val)
+			}
+		}
+		if len(alts) == 0 {
+			return nil, false
+		}
+		if len(alts) == 1 {
+			return alts[0], true
+		}
+		ldv, _ := at.(ssa.Value)
+		if ldv == nil {
+			return nil, false
+		}
+		k := 1
+		for _, c := range strings.Join(path, ".") {
+			k = (k*131 + int(c)) % 1000003
+		}
+		in := tb.inst(ctx, ldv, k+1)
+		if !anyCyc(alts) {
+			tb.alts[in] = alts
+		}
+		return tb.mk("phi", "mem:"+strings.Join(path, "."), in), true
 	}
 	if dom == nil {
 		return tb.zeroOf(T), true
@@ -1549,6 +1593,47 @@ func nearestDominatingStore(at ssa.Instruction, cands []*ssa.Store) *ssa.Store {
 		}
 	}
 	return nil
+}
+
+// reachesAvoidingAll: a path from just after `from` to `to` that executes no other store of the set.
+func reachesAvoidingAll(from *ssa.Store, to ssa.Instruction, set []*ssa.Store) bool {
+	avoid := map[ssa.Instruction]bool{}
+	for _, s := range set {
+		if s != from {
+			avoid[s] = true
+		}
+	}
+	type pos struct {
+		b *ssa.BasicBlock
+		i int
+	}
+	seen := map[*ssa.BasicBlock]bool{}
+	work := []pos{{from.Block(), instrIndex(from) + 1}}
+	for len(work) > 0 {
+		p := work[len(work)-1]
+		work = work[:len(work)-1]
+		blocked := false
+		for i := p.i; i < len(p.b.Instrs); i++ {
+			ins := p.b.Instrs[i]
+			if ins == to {
+				return true
+			}
+			if avoid[ins] || ins == ssa.Instruction(from) {
+				blocked = true
+				break
+			}
+		}
+		if blocked {
+			continue
+		}
+		for _, s := range p.b.Succs {
+			if !seen[s] {
+				seen[s] = true
+				work = append(work, pos{s, 0})
+			}
+		}
+	}
+	return false
 }
 
 // reachesAvoiding: is there a CFG path from just after `from` to `to` that
